@@ -957,3 +957,104 @@ pub fn gen_text(seed: u64, tier: &str) -> Vec<String> {
     }
     out.lines
 }
+
+/// C16: serialisation round trips and rejection of malformed input
+pub fn gen_serde(seed: u64, tier: &str) -> Vec<String> {
+    let mut rng = Rng::new(seed ^ 0xC16);
+    let mut out: Vec<String> = vec![];
+    header(&mut out);
+    let mut case = 0usize;
+    let nasty = ["q\"uote", "back\\slash", "nl\nt\tr\r", "ctl\u{1}\u{1f}", "é→\u{1F600}", "", "plain", "a\u{7f}b", "\u{2028}sep"];
+    let n = if tier == "thorough" { 3000 } else { 300 };
+    for i in 0..n {
+        // a tree with some nasty texts
+        let mut pool = vec![];
+        let (d, w) = (1 + rng.below(4), 1 + rng.below(4));
+        let t = random_tree(&mut rng, d, w, &mut pool);
+        fn spice(t: &RefTree, rng: &mut Rng, nasty: &[&str]) -> RefTree {
+            match t {
+                RefTree::Tok(k, s) => {
+                    if !crate::gen::static_kind(*k) && rng.chance(1, 3) {
+                        RefTree::Tok(*k, rng.pick(nasty).to_string())
+                    } else {
+                        RefTree::Tok(*k, s.clone())
+                    }
+                }
+                RefTree::Node(k, cs) => RefTree::Node(*k, cs.iter().map(|c| spice(c, rng, nasty)).collect()),
+            }
+        }
+        let t = if i % 3 == 0 { t } else { spice(&t, &mut rng, &nasty) };
+        out.push(format!("case {}", case));
+        case += 1;
+        out.push("cache user".into());
+        out.push("builder c0".into());
+        emit_tree(&t, &mut out, &mut rng);
+        out.push("finish".into());
+        // number of nodes
+        fn count_nodes(t: &RefTree) -> usize {
+            match t {
+                RefTree::Tok(..) => 0,
+                RefTree::Node(_, cs) => 1 + cs.iter().map(count_nodes).sum::<usize>(),
+            }
+        }
+        let nn = count_nodes(&t);
+        for mode in ["plain", "resolver", "data", "data_resolver"] {
+            let mut assigns = vec![];
+            for j in 0..nn {
+                if rng.chance(1, 3) {
+                    assigns.push(format!("{}={}", j, rng.below(1000)));
+                }
+            }
+            out.push(format!("ser {} g0 {}", mode, assigns.join(" ")).trim_end().to_string());
+        }
+    }
+    // rejection: every event stream up to a length bound, with every data-list length
+    let alphabet = ["E0.0", "E1.1", "T10:61", "L"];
+    let maxlen = if tier == "thorough" { 6 } else { 4 };
+    let maxdata = if tier == "thorough" { 3 } else { 2 };
+    out.push(format!("case {}", case));
+    case += 1;
+    let mut count = 0usize;
+    for len in 0..=maxlen {
+        let total = alphabet.len().pow(len as u32);
+        for code in 0..total {
+            let mut c = code;
+            let mut evs = vec![];
+            for _ in 0..len {
+                evs.push(alphabet[c % alphabet.len()]);
+                c /= alphabet.len();
+            }
+            for nd in 0..=maxdata {
+                let data: Vec<String> = (0..nd).map(|x| (x + 7).to_string()).collect();
+                let route = ["str", "value", "reader", "slice"][count % 4];
+                count += 1;
+                if count % 400 == 0 {
+                    out.push(format!("case {}", case));
+                    case += 1;
+                }
+                out.push(format!("deser {} {};{}", route, evs.join(","), data.join(",")));
+            }
+        }
+    }
+    // corruptions that stay valid JSON
+    out.push(format!("case {}", case));
+    for raw in [
+        "[]",
+        "[[],[]]x",
+        "{}",
+        "[[{\"t\":\"EnterNode\",\"c\":[0,false]},{\"t\":\"LeaveNode\"}]]",
+        "[[{\"t\":\"EnterNode\",\"c\":[0]},{\"t\":\"LeaveNode\"}],[]]",
+        "[[{\"t\":\"EnterNode\",\"c\":[\"x\",false]},{\"t\":\"LeaveNode\"}],[]]",
+        "[[{\"t\":\"Enter\",\"c\":[0,false]},{\"t\":\"LeaveNode\"}],[]]",
+        "[[{\"t\":\"EnterNode\",\"c\":[0,false]},{\"t\":\"Token\",\"c\":[10,5]},{\"t\":\"LeaveNode\"}],[]]",
+        "[[{\"t\":\"EnterNode\",\"c\":[0,true]},{\"t\":\"LeaveNode\"}],[\"x\"]]",
+        "[[{\"t\":\"EnterNode\",\"c\":[0,false]},{\"t\":\"LeaveNode\"}],[],[]]",
+        "[[{\"c\":[0,false]},{\"t\":\"LeaveNode\"}],[]]",
+        "[[{\"t\":\"EnterNode\",\"c\":[4294967296,false]},{\"t\":\"LeaveNode\"}],[]]",
+    ] {
+        for route in ["str", "value"] {
+            out.push(format!("deser_raw {} {}", route, hex(raw)));
+        }
+    }
+    out
+}
